@@ -50,8 +50,10 @@ contract(
 contract(
     "liquid2.undefined:FalsyStrictUndefined.__eq__",
     props=["C16"],
-    params={"self": Rec("FalsyStrictUndefined", _module="liquid2.undefined", path=Str, msg=Str, token=Any_), "other": Union(FalseT, TrueT, NoneT, Int, Str)},
-    post=["result == (other is False)"],
+    params={"self": Rec("FalsyStrictUndefined", _module="liquid2.undefined", path=Str, msg=Str, token=Any_), "other": Union(UNDEF, FalseT, TrueT, NoneT, Int, Str)},
+    # the refinement the property asks for: a falsy-strict undefined is equal to exactly what the default Undefined is equal to
+    # (so `in` / `contains` / `==` on Python level cannot tell the policies apart when the render succeeds)
+    post=["result == (isinstance(other, Undefined) or other is None)"],
     raises={},
 )
 
